@@ -8,6 +8,7 @@ import (
 	"errors"
 	"fmt"
 	"io"
+	"strings"
 
 	"verif/gen"
 	"verif/mc"
@@ -47,6 +48,22 @@ func c10Symbols() []c10Sym {
 		{"jfif", func(*mc.Exec) gen.Seg { return gen.SegJFIF() }},
 		{"exif-min-II", func(*mc.Exec) gen.Seg { return gen.SegExif(minII) }},
 		{"exif-rich-MM", func(*mc.Exec) gen.Seg { return gen.SegExif(richMM) }},
+		{"exif-offset-behind-the-block", func(x *mc.Exec) gen.Seg {
+			// a value offset or directory pointer of the block points behind its end (a cut-off Exif block): the library's own
+			// reader must still keep to the segment
+			d := gen.EncodeTIFF(richRecord(), gen.CanonicalLayout(), binary.LittleEndian, gen.AllDirs)
+			var offs []gen.Field
+			for _, f := range d.Fields {
+				if f.Kind == "off32" {
+					offs = append(offs, f)
+				}
+			}
+			pick := []int{0, 1, len(offs) / 2, len(offs) - 1} // the first value offsets, one in the middle, the last (directory pointers are among them)
+			f := offs[pick[x.All("dangling-offset-field", len(pick))]]
+			d2 := &gen.Doc{B: append([]byte{}, d.B...), Fields: d.Fields}
+			d2.Set(f, uint64(len(d.B)+[]int{64, 70000}[x.All("dangling-distance", 2)]))
+			return gen.SegExif(d2)
+		}},
 		{"xmp", func(x *mc.Exec) gen.Seg {
 			return gen.SegXMP(c10Packet(c10XmpLens[x.All("xmp-length", len(c10XmpLens))]))
 		}},
@@ -119,6 +136,12 @@ func c10Source(b []byte, chunk int) io.Reader {
 
 // c10Run scans the JPEG made of segs and compares every callback with the generator's segment table.
 func c10Run(x *mc.Exec, segs []gen.Seg, names []string, eb, xb, chunk int) {
+	danglingOffsets := false
+	for _, n := range names {
+		if strings.Contains(n, "behind-the-block") {
+			danglingOffsets = true
+		}
+	}
 	{
 		doc, table := gen.BuildJPEG(segs, true)
 		x.InputID = hashBytes(doc.B) ^ uint64(eb)<<8 ^ uint64(xb)
@@ -327,7 +350,8 @@ func c10Run(x *mc.Exec, segs []gen.Seg, names []string, eb, xb, chunk int) {
 				fail("callback-order", fmt.Sprintf("callback %d is %s, want %s", i, g.kind, w.kind))
 				return
 			}
-			if g.extra != "" {
+			if g.extra != "" && !(danglingOffsets && strings.HasPrefix(g.extra, "DecodeJPEGIfd error")) {
+				// (the library's reader may refuse a block whose offsets point outside it; what it must not do is leave the segment)
 				fail("callback-"+g.kind+"-read", fmt.Sprintf("callback %d (%s): %s", i, g.kind, g.extra))
 			}
 			switch w.kind {
@@ -461,7 +485,7 @@ func init() {
 			fill := mc.Space{Name: "fill-bytes", H: c10Fill, NoLevels: true, Isolate: true, SplitDepth: 1,
 				Rule: "sequences of 1..3 segments over {Exif, XMP, JFIF, COM, 5000-byte APP14, DRI} with 1, 2, 3 or 70 fill bytes (0xFF) before one of them x 3 callback pairs x 2 source deliveries: fill bytes before a marker are part of the marker syntax (ITU T.81 B.1.1.2) and change nothing"}
 			return []mc.Space{edge, fill, {Name: "marker-sequences", H: c10Harness(n), NoLevels: true, Isolate: true, SplitDepth: 2,
-				Rule: fmt.Sprintf("every sequence of <= %d segments over a 19-symbol alphabet (JFIF, JFXX, Exif min/rich both byte orders, XMP with 7 packet lengths incl. 0, 4096+-1, 65502, XMP extension, ICC, Photoshop, 0xFF runs, nested SOI/EOI, near-Exif, near-XMP, COM, DRI with 7 restart intervals incl. marker-looking ones, SOF2, COM/APP0/APP12/APP1 segments of 0-3 bytes of 0xFF, 5000-byte APPn, ignored segments (APP2, COM, non-Exif APP1, APP13) of length 0xFFFF, 0xFFFE, 0xFFFD, 0x8000, 0x7FFF, 0x100, 0xFF filled with marker-looking structure) followed by DQT SOF0 DHT SOS entropy EOI x 6 Exif-callback behaviours x 7 XMP-callback behaviours; trivial = no metadata segment", n)}}
+				Rule: fmt.Sprintf("every sequence of <= %d segments over a 20-symbol alphabet (JFIF, JFXX, Exif min/rich both byte orders, Exif whose offsets point behind the block, XMP with 7 packet lengths incl. 0, 4096+-1, 65502, XMP extension, ICC, Photoshop, 0xFF runs, nested SOI/EOI, near-Exif, near-XMP, COM, DRI with 7 restart intervals incl. marker-looking ones, SOF2, COM/APP0/APP12/APP1 segments of 0-3 bytes of 0xFF, 5000-byte APPn, ignored segments (APP2, COM, non-Exif APP1, APP13) of length 0xFFFF, 0xFFFE, 0xFFFD, 0x8000, 0x7FFF, 0x100, 0xFF filled with marker-looking structure) followed by DQT SOF0 DHT SOS entropy EOI x 6 Exif-callback behaviours x 7 XMP-callback behaviours; trivial = no metadata segment", n)}}
 		},
 		Assumptions: []string{"expected callback arguments and payloads come from the generator's own segment table", "Exif callbacks consume exactly their declared length (the statement's premise); under-consuming Exif callbacks are not explored"},
 	})
